@@ -32,11 +32,11 @@
    The one place where the instance answers differently from Python: a public key that is ON the curve but OUTSIDE E[n]
    is treated like an off-curve key (`ec_key` = None, verify raises NoSuchPointError -> false).  secp256k1 has cofactor 1,
    so no such point exists; cofactor 1 is not proved here (Props/C01compose.v) and no theorem depends on it. *)
-From Coq Require Import ZArith List Lia Znumtheory Bool.
+From Coq Require Import ZArith List Lia Znumtheory Bool Zpow_facts.
 From PV Require Import Base.Bytes Base.Outcome Gen.GenCurves Gen.GenCurveC10 Gen.GenSolveC05.
 From PV Require Import Model.Curve Model.Ecdsa Model.Rfc6979 Model.Der Model.Sec Model.Solve.
-From PV Require Import Spec.Weierstrass Spec.EcdsaSpec Spec.DerStrictSpec Spec.Templates Spec.VMcore.
-From PV Require Import Proofs.DerP Proofs.SecP Proofs.ComposeTemplatesEnc Proofs.EcdsaP.
+From PV Require Import Spec.Weierstrass Spec.EcdsaSpec Spec.Rfc6979Spec Spec.DerStrictSpec Spec.Templates Spec.VMcore.
+From PV Require Import Proofs.DerP Proofs.SecP Proofs.ComposeTemplatesEnc Proofs.EcdsaP Proofs.CurveSqrtP Proofs.FermatC10.
 From PV Require Import Proofs.ComposeEcInst Proofs.ComposeEcC01 Proofs.ComposeEcShipped Proofs.ComposeEcC09.
 From PV Require Import Proofs.SolveP Proofs.ComposeRelC05.
 From PV Require Props.C01 Props.C10 Props.C01compose.
@@ -112,6 +112,71 @@ Lemma k1_n_lt : secp256k1_n < 2 ^ 256.
 Proof. reflexivity. Qed.
 
 (* ================================================================================================================ *)
+(* A'. the placeholder signature of Solver.py has r = n - 1, and n - 1 is not the abscissa of a point of secp256k1    *)
+Definition ph_r : Z := secp256k1_n - 1.
+Definition ph_s : Z := (secp256k1_n - 1) / 2.
+Definition ph_rhs : Z := (ph_r * ph_r * ph_r + secp256k1_a * ph_r + secp256k1_b) mod secp256k1_p.
+
+(* generate_default_placeholder_signature (regenerated into Gen/GenSolveC05.v) is DER(n - 1, (n - 1)/2) ++ [SIGHASH_ALL] *)
+Lemma placeholder_decodes : sigdecode_der (removelast gen_c05_placeholder) true = Ret (ph_r, ph_s).
+Proof. vm_compute. reflexivity. Qed.
+
+(* Euler's criterion, computed: the right-hand side of the curve equation at x = n - 1 is a non-residue *)
+Lemma ph_rhs_nonresidue : pow_mod ph_rhs ((secp256k1_p - 1) / 2) secp256k1_p = secp256k1_p - 1 /\ ph_rhs <> 0 /\
+  2 * ((secp256k1_p - 1) / 2) = secp256k1_p - 1 /\ 0 <= (secp256k1_p - 1) / 2 /\ 2 < secp256k1_p.
+Proof.
+  split; [vm_compute; reflexivity|]. split; [vm_compute; discriminate|]. split; [vm_compute; reflexivity|].
+  split; [vm_compute; discriminate | vm_compute; reflexivity].
+Qed.
+
+Lemma euler_nonresidue p a e y : prime p -> 2 < p -> 0 <= e -> 2 * e = p - 1 -> (a ^ e) mod p = p - 1 -> a mod p <> 0 ->
+  0 <= y < p -> (y * y) mod p = a mod p -> False.
+Proof.
+  intros Hp Hp2 He0 He2 Hpow Hnz Hy Hyy.
+  rewrite Zpower_mod in Hpow by (clear - Hp2; lia). rewrite <- Hyy in Hpow. rewrite <- Zpower_mod in Hpow by (clear - Hp2; lia).
+  replace (y * y) with (y ^ 2) in Hpow by ring.
+  rewrite <- Z.pow_mul_r in Hpow by (clear - He0; lia). rewrite He2 in Hpow.
+  destruct (Z.eq_dec y 0) as [->|Hy0].
+  - apply Hnz. rewrite <- Hyy. reflexivity.
+  - assert (Hy' : 0 < y < p) by (clear - Hy Hy0; lia).
+    rewrite (fermat_little p y Hp Hy') in Hpow. clear - Hpow Hp2. lia.
+Qed.
+
+Lemma k1_no_abscissa_nm1 y : 0 <= y < secp256k1_p ->
+  (y * y - (ph_r * ph_r * ph_r + secp256k1_a * ph_r + secp256k1_b)) mod secp256k1_p = 0 -> False.
+Proof.
+  intros Hy H.
+  destruct ph_rhs_nonresidue as (Hpow & Hnz & He2 & He0 & Hp2).
+  rewrite pow_mod_spec in Hpow by exact He0.
+  apply (euler_nonresidue secp256k1_p ph_rhs ((secp256k1_p - 1) / 2) y secp256k1_M1 Hp2 He0 He2 Hpow); [|exact Hy|].
+  - unfold ph_rhs. rewrite Z.mod_mod by (clear - Hp2; lia). exact Hnz.
+  - unfold ph_rhs. rewrite Z.mod_mod by (clear - Hp2; lia).
+    set (A := ph_r * ph_r * ph_r + secp256k1_a * ph_r + secp256k1_b) in *.
+    replace (y * y) with ((y * y - A) + A) by ring. rewrite Zplus_mod, H, Z.add_0_l. apply Z.mod_mod. clear - Hp2; lia.
+Qed.
+
+(* x = n - 1 (mod n) and 0 <= x < p < 2n - 1 leave x = n - 1 *)
+Lemma residue_nm1 n p x : 0 < n -> p < 2 * n - 1 -> 0 <= x < p -> x mod n = n - 1 -> x = n - 1.
+Proof.
+  intros Hn Hp Hx Hm. destruct (Z_lt_ge_dec x n) as [L|L].
+  - rewrite Z.mod_small in Hm by lia. exact Hm.
+  - exfalso. replace x with ((x - n) + 1 * n) in Hm by ring. rewrite Z_mod_plus_full, Z.mod_small in Hm by lia. lia.
+Qed.
+
+Lemma k1_p_lt_2n : secp256k1_p < 2 * secp256k1_n - 1 /\ 0 < secp256k1_n.
+Proof. split; vm_compute; reflexivity. Qed.
+
+(* a finite carrier element satisfies the curve equation and has reduced coordinates (part of the carrier predicate) *)
+Lemma ept_coords_facts (cv : curve) (P : ept cv) x y : ecoords P = Some (x, y) ->
+  (y * y - (x * x * x + ca cv * x + cb cv)) mod cp cv = 0 /\ 0 <= x < cp cv /\ 0 <= y < cp cv.
+Proof.
+  destruct P as [P H]. unfold ecoords, eval. cbn [proj1_sig]. intros E. subst P.
+  unfold inb in H. apply andb_prop in H. destruct H as [H _]. apply andb_prop in H. destruct H as [H1 H2].
+  split; [cbn [contains_point] in H1; apply Z.eqb_eq; exact H1|].
+  apply reducedb_iff in H2. cbn in H2. lia.
+Qed.
+
+(* ================================================================================================================ *)
 (* B. the instance                                                                                                    *)
 Definition bz (b : bytes) : Z := Z.of_N (be_decode b).
 
@@ -130,10 +195,6 @@ Definition digest_ok (d : bytes) : Prop := 0 < bz d < 2 ^ 256.
 
 Section EcC05.
 Variable blind : Z.                               (* the generator's blinding factor: any *)
-Variable hmac : bytes -> bytes -> bytes.          (* hmac.new(k, m, hashlib.sha256).digest() *)
-Variable kfuel fuel : nat.                        (* bounds on the two `while` loops of signing (RFC 6979 retry; k += 1) *)
-Variable strict : bool.                           (* sec_to_public_pair's flag: True in _find_signatures, STRICTENC in checksig *)
-
 Local Notation c := secp256k1_curve.
 Local Notation g := (secp256k1_gen blind).
 Local Notation G := (eG g).
@@ -141,47 +202,11 @@ Local Notation n := secp256k1_n.
 Local Notation e_verify := (Ecdsa.verify (ept c) (eadd c) (esmul c) G n ecoords).
 Local Notation e_sign_with_recid := (Ecdsa.sign_with_recid (ept c) (esmul c) G n ecoords).
 Local Notation e_sign := (Ecdsa.sign (ept c) (esmul c) G n ecoords).
-Local Notation gen_k := (deterministic_generate_k hmac 32 kfuel).
 
 (* Key(secret_exponent=se).public_pair() = se * G, then public_pair_to_sec; infinity has no coordinates (TypeError) *)
 Definition ec_pub_out (se : bytes) (compressed : bool) : outcome bytes :=
   sec_of_coords (ecoords (esmul c (bz se) G)) compressed.
 Definition ec_pub_of (se : bytes) (compressed : bool) : bytes := ret_or [] (ec_pub_out se compressed).
-
-(* signing_solver: generator.sign, low-S normalisation, der.sigencode_der *)
-Definition ec_sign_out (se d : bytes) : outcome bytes :=
-  do '(r, s) <- e_sign gen_k fuel (bz se) (bz d);
-  sigencode_der r (if n <? s + s then n - s else s).
-Definition ec_sign (se d : bytes) : bytes := ret_or [] (ec_sign_out se d).
-Definition ec_signs (se d : bytes) : Prop := exists sig, ec_sign_out se d = Ret sig.
-
-(* self.Point(x, y): a carrier element, or NoSuchPointError *)
-Definition ec_key (pr : Z * Z) : option (ept c) :=
-  if inb c (Some pr) then Some (mk c (Some pr)) else None.
-
-Definition ec_verify_out (pk d sig : bytes) : outcome bool :=
-  do '(r, s) <- sigdecode_der sig true;
-  do pr <- Sec.sec_to_public_pair secp256k1_p secp256k1_a secp256k1_b pk strict;
-  e_verify (ec_key pr) (bz d) r s.
-Definition ec_verifies (pk d sig : bytes) : bool := ret_or false (ec_verify_out pk d sig).
-
-(* ---- the neighbours' theorems at this instance -------------------------------------------------------------- *)
-Let laws := Props.C01compose.C01c_secp256k1_group_laws_unconditional blind.
-Let sv := proj2 (Props.C01compose.C01c_secp256k1_sign_verifies_unconditional blind gen_k).
-
-(* what a returned signature is *)
-Lemma ec_sign_spec se d sig : ec_sign_out se d = Ret sig ->
-  exists r s, 1 <= r < n /\ 1 <= s /\ 2 * s <= n /\ sigencode_der r s = Ret sig /\
-              e_verify (Some (esmul c (bz se) G)) (bz d) r s = Ret true.
-Proof.
-  unfold ec_sign_out, Ecdsa.sign. intros H.
-  destruct (e_sign_with_recid gen_k fuel (bz se) (bz d)) as [[[r s] recid]| |] eqn:E; cbn [bind] in H; try discriminate.
-  destruct (sv fuel (bz se) (bz d) r s recid E) as (Hr & Hs & _ & Hv).
-  destruct (n <? s + s) eqn:Ehi.
-  - exists r, (n - s). repeat split; try lia; [exact H|].
-    rewrite (Props.C01.C01_verify_low_s_symmetry (ept c) (eadd c) (eneg c) (eO c) (esmul c) G n ecoords laws secp256k1_M2). exact Hv.
-  - exists r, s. repeat split; try lia; [exact H | exact Hv].
-Qed.
 
 (* ---- public keys ------------------------------------------------------------------------------------------------ *)
 Lemma ec_point_finite se : secret_ok se -> esmul c (bz se) G <> eO c.
@@ -190,7 +215,7 @@ Proof.
 Qed.
 
 Lemma ec_pub_spec se : secret_ok se ->
-  exists x y, ecoords (esmul c (bz se) G) = Some (x, y) /\ 0 <= x < secp256k1_p /\ 0 <= y < secp256k1_p /\
+  exists x y, @eval c (esmul c (bz se) G) = Some (x, y) /\ 0 <= x < secp256k1_p /\ 0 <= y < secp256k1_p /\
     Sec.contains_point secp256k1_p secp256k1_a secp256k1_b x y = true /\
     forall comp, exists sec, Sec.public_pair_to_sec (x, y) comp = Ret sec /\ ec_pub_of se comp = sec /\
       length sec = (if comp then 33 else 65)%nat.
@@ -200,7 +225,7 @@ Proof.
   assert (Hx' : 0 <= x < secp256k1_p) by exact Hx. assert (Hy' : 0 < y < secp256k1_p) by exact Hy.
   assert (E' : @eval c (esmul c (bz se) G) = Some (x, y)) by exact E. clear E. rename E' into E.
   assert (Hy0 : 0 <= y < secp256k1_p) by (clear - Hy'; lia).
-  exists x, y. unfold ecoords. split; [exact E|]. split; [exact Hx'|]. split; [exact Hy0|].
+  exists x, y. split; [exact E|]. split; [exact Hx'|]. split; [exact Hy0|].
   split; [exact Hc|]. intros comp.
   destruct (Props.C10.C10_sec_roundtrip_secp256k1_unconditional x y comp Hx' Hy0 Hc) as (sec & Es & L & _).
   exists sec. split; [exact Es|]. split; [|exact L].
@@ -219,6 +244,42 @@ Proof.
   - destruct (Hs false) as (sec & Es & -> & L). unfold is_uncompressed. rewrite L. cbn [Nat.eqb andb].
     unfold Sec.public_pair_to_sec in Es. rewrite to_bytes_32_ok in Es by exact Hx256. cbn [bind] in Es.
     destruct (Sec.to_bytes_32 y); cbn [bind] in Es; try discriminate. injection Es as <-. reflexivity.
+Qed.
+
+Variable strict : bool.                           (* sec_to_public_pair's flag: True in _find_signatures, STRICTENC in checksig *)
+
+(* self.Point(x, y): a carrier element, or NoSuchPointError *)
+Definition ec_key (pr : Z * Z) : option (ept c) :=
+  if inb c (Some pr) then Some (mk c (Some pr)) else None.
+
+Definition ec_verify_out (pk d sig : bytes) : outcome bool :=
+  do '(r, s) <- sigdecode_der sig true;
+  do pr <- Sec.sec_to_public_pair secp256k1_p secp256k1_a secp256k1_b pk strict;
+  e_verify (ec_key pr) (bz d) r s.
+Definition ec_verifies (pk d sig : bytes) : bool := ret_or false (ec_verify_out pk d sig).
+
+(* no signature with r = n - 1 verifies, under any key, for any digest: the verification point would have abscissa n - 1 *)
+Lemma verify_ph_r_false Qo z s : e_verify Qo z ph_r s <> Ret true.
+Proof.
+  unfold Ecdsa.verify. destruct (z =? 0); [discriminate|].
+  destruct (Ecdsa.out_of_range n ph_r s); [discriminate|].
+  destruct (Ecdsa.inverse n s) as [si| |]; cbn [bind]; try discriminate.
+  destruct Qo as [Q|]; [|discriminate].
+  destruct (ecoords (eadd c (esmul c (z * si) G) (esmul c (ph_r * si) Q))) as [[x y]|] eqn:E; [|discriminate].
+  destruct (ept_coords_facts c _ x y E) as (Hon & Hx & Hy).
+  intros H. injection H as H. apply Z.eqb_eq in H.
+  destruct k1_p_lt_2n as [Hp2n Hn0].
+  pose proof (residue_nm1 n secp256k1_p x Hn0 Hp2n Hx H) as Hxe. subst x.
+  exact (k1_no_abscissa_nm1 y Hy Hon).
+Qed.
+
+(* hence the placeholder verifies under no key at all *)
+Theorem ec_placeholder_never_verifies pk d : ec_verifies pk d (removelast gen_c05_placeholder) = false.
+Proof.
+  unfold ec_verifies, ec_verify_out. rewrite placeholder_decodes. cbn [bind].
+  destruct (Sec.sec_to_public_pair secp256k1_p secp256k1_a secp256k1_b pk strict) as [pr| |]; cbn [bind ret_or]; try reflexivity.
+  destruct (e_verify (ec_key pr) (bz d) ph_r ph_s) as [[|]| |] eqn:E; try reflexivity.
+  exfalso. exact (verify_ph_r_false _ _ _ E).
 Qed.
 
 (* the key of the instance decodes back to the point, in both decoder modes, and is a carrier element.
@@ -247,11 +308,40 @@ Proof.
   exists (x, y). split; [rewrite Ep; congruence|]. exact (ec_coords_key se x y E).
 Qed.
 
+Variable hmac : bytes -> bytes -> bytes.          (* hmac.new(k, m, hashlib.sha256).digest() *)
+Variable kfuel fuel : nat.                        (* bounds on the two `while` loops of signing (RFC 6979 retry; k += 1) *)
+Local Notation gen_k := (deterministic_generate_k hmac 32 kfuel).
+
+(* signing_solver: generator.sign, low-S normalisation, der.sigencode_der *)
+Definition ec_sign_out (se d : bytes) : outcome bytes :=
+  do '(r, s) <- e_sign gen_k fuel (bz se) (bz d);
+  sigencode_der r (if n <? s + s then n - s else s).
+Definition ec_sign (se d : bytes) : bytes := ret_or [] (ec_sign_out se d).
+Definition ec_signs (se d : bytes) : Prop := exists sig, ec_sign_out se d = Ret sig.
+
+(* ---- the neighbours' theorems at this instance -------------------------------------------------------------- *)
+Local Notation laws := (Props.C01compose.C01c_secp256k1_group_laws_unconditional blind).
+Local Notation sv := (proj2 (Props.C01compose.C01c_secp256k1_sign_verifies_unconditional blind gen_k)).
+
+(* what a returned signature is *)
+Lemma ec_sign_spec se d sig : ec_sign_out se d = Ret sig ->
+  exists r s, 1 <= r < n /\ 1 <= s /\ 2 * s <= n /\ sigencode_der r s = Ret sig /\
+              e_verify (Some (esmul c (bz se) G)) (bz d) r s = Ret true.
+Proof.
+  unfold ec_sign_out, Ecdsa.sign. intros H.
+  destruct (e_sign_with_recid gen_k fuel (bz se) (bz d)) as [[[r s] recid]| |] eqn:E; cbn [bind] in H; try discriminate.
+  destruct (sv fuel (bz se) (bz d) r s recid E) as (Hr & Hs & _ & Hv).
+  destruct (n <? s + s) eqn:Ehi.
+  - exists r, (n - s). repeat split; try lia; [exact H|].
+    rewrite (Props.C01.C01_verify_low_s_symmetry (ept c) (eadd c) (eneg c) (eO c) (esmul c) G n ecoords laws secp256k1_M2). exact Hv.
+  - exists r, s. repeat split; try lia; [exact H | exact Hv].
+Qed.
+
 (* ---- the three interface hypotheses of Props/C05.v, on their true domain ------------------------------------------ *)
 Theorem ec_sign_verifies se comp d : secret_ok se -> ec_signs se d ->
   ec_verifies (ec_pub_of se comp) d (ec_sign se d) = true.
 Proof.
-  intros Hse (sig & Hsig). unfold ec_sign. rewrite Hsig.
+  intros Hse (sig & Hsig). unfold ec_sign. rewrite Hsig. cbn [ret_or].
   destruct (ec_sign_spec se d sig Hsig) as (r & s & Hr & Hs1 & Hs2 & Eenc & Hv).
   destruct (Props.C10.C10_der_roundtrip r s true ltac:(lia) ltac:(lia)) as (sig' & E1 & E2).
   { apply small_expressible; pose proof k1_n_lt; lia. }
@@ -263,7 +353,7 @@ Qed.
 Theorem ec_sign_canonical se d t : ec_signs se d ->
   strict_der (ec_sign se d ++ [t]) = true /\ low_s (ec_sign se d ++ [t]) = true.
 Proof.
-  intros (sig & Hsig). unfold ec_sign. rewrite Hsig.
+  intros (sig & Hsig). unfold ec_sign. rewrite Hsig. cbn [ret_or].
   destruct (ec_sign_spec se d sig Hsig) as (r & s & Hr & Hs1 & Hs2 & Eenc & _).
   pose proof k1_n_lt as Hn.
   destruct (der_values r s t ltac:(lia) ltac:(lia)) as (sig' & E1 & Hstrict & Hrv & Hsv).
@@ -292,18 +382,137 @@ Proof.
   unfold ec_pub_of, ec_pub_out. rewrite Hz. split; reflexivity.
 Qed.
 
+(* generator.sign returned: so does the signer (the low-S pair is in DER's range) *)
+Lemma ec_signs_of_ret se d r s recid : e_sign_with_recid gen_k fuel (bz se) (bz d) = Ret (r, s, recid) -> ec_signs se d.
+Proof.
+  intros Es. unfold ec_signs, ec_sign_out, Ecdsa.sign. rewrite Es. cbn [bind].
+  destruct (sv fuel (bz se) (bz d) r s recid Es) as (Hr & Hs & _).
+  pose proof k1_n_lt as Hn.
+  destruct (n <? s + s) eqn:Ehi.
+  - destruct (Props.C10.C10_der_encoder_output_is_bip66 r (n - s) x01 ltac:(lia) ltac:(lia)) as (sig & E1 & _). eauto.
+  - destruct (Props.C10.C10_der_encoder_output_is_bip66 r s x01 ltac:(lia) ltac:(lia)) as (sig & E1 & _). eauto.
+Qed.
+
 (* in range, signing can only fail by not terminating (C01: never raises); then ec_signs holds as soon as it returns *)
 Theorem ec_signs_or_diverges se d : 0 <= bz se < n -> digest_ok d -> ec_signs se d \/ ec_sign_out se d = OutOfFuel.
 Proof.
-  intros Hse Hd. unfold ec_signs.
-  destruct (ec_sign_out se d) as [sig| e |] eqn:E; [left; eauto | exfalso | right; reflexivity].
-  unfold ec_sign_out, Ecdsa.sign in E.
-  destruct (e_sign_with_recid gen_k fuel (bz se) (bz d)) as [[[r s] recid]| e' |] eqn:Es; cbn [bind] in E; try discriminate.
-  - destruct (sv fuel (bz se) (bz d) r s recid Es) as (Hr & Hs & _).
-    pose proof k1_n_lt as Hn.
-    destruct (n <? s + s) eqn:Ehi.
-    + destruct (Props.C10.C10_der_encoder_output_is_bip66 r (n - s) x01 ltac:(lia) ltac:(lia)) as (sig & E1 & _). congruence.
-    + destruct (Props.C10.C10_der_encoder_output_is_bip66 r s x01 ltac:(lia) ltac:(lia)) as (sig & E1 & _). congruence.
-  - exact (Props.C01compose.C01c_secp256k1_sign_never_raises_unconditional blind hmac 32 kfuel fuel (bz se) (bz d) e' Hse Hd Es).
+  intros Hse Hd.
+  destruct (e_sign_with_recid gen_k fuel (bz se) (bz d)) as [[[r s] recid]| e' |] eqn:Es.
+  - left. exact (ec_signs_of_ret se d r s recid Es).
+  - exfalso. exact (Props.C01compose.C01c_secp256k1_sign_never_raises_unconditional blind hmac 32 kfuel fuel (bz se) (bz d) e' Hse Hd Es).
+  - right. unfold ec_sign_out, Ecdsa.sign. rewrite Es. reflexivity.
+Qed.
+
+(* the definitions, spelled out for Props/C05ec.v *)
+Lemma ec_instance_unfold :
+  (forall se comp, ec_pub_out se comp = sec_of_coords (ecoords (esmul c (bz se) G)) comp) /\
+  (forall se d, ec_sign_out se d =
+     bind (e_sign gen_k fuel (bz se) (bz d))
+          (fun rs => let '(r, s) := rs in sigencode_der r (if n <? s + s then n - s else s))) /\
+  (forall pk d sig, ec_verify_out pk d sig =
+     bind (sigdecode_der sig true) (fun rs => let '(r, s) := rs in
+     bind (Sec.sec_to_public_pair secp256k1_p secp256k1_a secp256k1_b pk strict) (fun pr =>
+     e_verify (ec_key pr) (bz d) r s))) /\
+  (forall se comp, ec_pub_of se comp = ret_or [] (ec_pub_out se comp)) /\
+  (forall se d, ec_sign se d = ret_or [] (ec_sign_out se d)) /\
+  (forall pk d sig, ec_verifies pk d sig = ret_or false (ec_verify_out pk d sig)).
+Proof. repeat split; intros; apply eq_refl. Qed.
+
+(* ================================================================================================================ *)
+(* C. C05's theorems at the instance: Proofs/ComposeRelC05.v needs the interface hypotheses on the listed keys and the   *)
+(*    produced digests only, and there they are the theorems above                                                       *)
+Variable hash160 : bytes -> bytes.
+Variable sha256 : bytes -> bytes.
+Variable sighash : bool -> N -> bytes -> option bytes.
+
+(* every listed secret is what Key(secret_exponent=..) accepts *)
+Definition keys_ok (ks : list keyspec) : Prop := forall k, In k ks -> secret_ok (fst k).
+(* generator.sign returns for every listed key on every digest the coin can produce for this input (hash types < 256) *)
+Definition signs_on (ks : list keyspec) (W : bool) (SC : bytes) : Prop :=
+  forall k d, In k ks -> produced sighash W SC d -> ec_signs (fst k) d.
+
+Lemma ec_sv_on ks W SC : keys_ok ks -> signs_on ks W SC -> sv_on ec_verifies ec_sign ec_pub_of sighash ks W SC.
+Proof. intros Hk Hs k comp d Hin Hd. apply ec_sign_verifies; [now apply Hk | now apply Hs]. Qed.
+Lemma ec_canon_on ks W SC : signs_on ks W SC -> canon_on ec_sign sighash ks W SC.
+Proof. intros Hs k d t Hin Hd. apply ec_sign_canonical. now apply Hs. Qed.
+Lemma ec_pubwf_on ks : keys_ok ks -> pubwf_on ec_pub_of ks.
+Proof. intros Hk k Hin. apply ec_pub_wellformed. now apply Hk. Qed.
+
+Theorem ec_ms_validates (Hsha : forall x, length (sha256 x) = 32%nat) fl forkid kd m ks db hto p2sh :
+  keys_ok ks -> signs_on ks (kwit kd) (ms_script m (map (pub ec_pub_of) ks)) ->
+  ms_shape ec_pub_of kd m ks -> p2sh_ok hash160 sha256 ec_pub_of kd m ks p2sh -> db_ok hash160 ec_pub_of db ks ->
+  (forall k, In k ks -> avail hash160 ec_pub_of db k = true) ->
+  ht_ok sighash (kwit kd) (ms_script m (map (pub ec_pub_of) ks)) (effective_hash_type forkid hto) ->
+  (f_std fl = true -> f_strictenc fl = true -> std_hash_type (effective_hash_type forkid hto)) ->
+  (forall k, In k ks -> pub_enc_ok fl (kwit kd) (pub ec_pub_of k) = true) ->
+  exists st, sign_input hash160 sha256 ec_verifies ec_sign ec_pub_of sighash db p2sh forkid (pz_ms ec_pub_of kd m ks) hto [] [] = Ret st /\
+             eval_input hash160 sha256 ec_verifies sighash fl (pz_ms ec_pub_of kd m ks) (fst st) (snd st) = true.
+Proof.
+  intros Hk Hs. apply (rel_ms_validates hash160 sha256 ec_verifies ec_sign ec_pub_of sighash Hsha).
+  - now apply ec_sv_on.
+  - now apply ec_canon_on.
+Qed.
+
+Theorem ec_single_validates (Hh : forall x, length (hash160 x) = 20%nat) fl forkid kd k db hto p2sh :
+  secret_ok (fst k) -> signs_on [k] (single_wit kd) (single_sc hash160 ec_pub_of kd k) ->
+  is_single_kind kd ->
+  lookup_get db (hash160 (pub ec_pub_of k)) = Some k ->
+  (kd = K_P2SH_P2WPKH ->
+   p2sh_get hash160 sha256 p2sh (hash160 (wit0_script (hash160 (pub ec_pub_of k)))) = Some (wit0_script (hash160 (pub ec_pub_of k)))) ->
+  ht_ok sighash (single_wit kd) (single_sc hash160 ec_pub_of kd k) (effective_hash_type forkid hto) ->
+  (f_std fl = true -> f_strictenc fl = true -> std_hash_type (effective_hash_type forkid hto)) ->
+  pub_enc_ok fl (single_wit kd) (pub ec_pub_of k) = true ->
+  exists st, sign_input hash160 sha256 ec_verifies ec_sign ec_pub_of sighash db p2sh forkid (pz_single hash160 ec_pub_of kd k) hto [] [] = Ret st /\
+             eval_input hash160 sha256 ec_verifies sighash fl (pz_single hash160 ec_pub_of kd k) (fst st) (snd st) = true.
+Proof.
+  intros Hk Hs.
+  assert (Hks : keys_ok [k]) by (intros k' [<-|[]]; exact Hk).
+  apply (rel_single_validates hash160 sha256 ec_verifies ec_sign ec_pub_of sighash Hh).
+  - now apply ec_sv_on.
+  - now apply ec_canon_on.
+  - now apply ec_pubwf_on.
+Qed.
+
+Theorem ec_partial_signing_order_free (Hsha : forall x, length (sha256 x) = 32%nat) forkid p2sh kd m ks fl0 :
+  keys_ok ks -> signs_on ks (kwit kd) (ms_script m (map (pub ec_pub_of) ks)) ->
+  ms_shape ec_pub_of kd m ks ->
+  excl_on ec_verifies ec_sign ec_pub_of sighash ks (kwit kd) (ms_script m (map (pub ec_pub_of) ks)) ->
+  p2sh_ok hash160 sha256 ec_pub_of kd m ks p2sh ->
+  (forall k, In k ks -> pub_enc_ok fl0 (kwit kd) (pub ec_pub_of k) = true) ->
+  forall passes : list pass,
+  Forall (pass_ok hash160 ec_pub_of sighash forkid kd m ks fl0) passes ->
+  exists st, run hash160 sha256 ec_verifies ec_sign ec_pub_of sighash forkid p2sh kd m ks passes ([], []) = Ret st /\
+             (eval_input hash160 sha256 ec_verifies sighash fl0 (pz_ms ec_pub_of kd m ks) (fst st) (snd st) = true <->
+              (m <= ncovered hash160 ec_pub_of ks passes)%nat).
+Proof.
+  intros Hk Hs Hsh Hex.
+  apply (rel_partial_signing_order_free hash160 sha256 ec_verifies ec_sign ec_pub_of sighash Hsha); try assumption.
+  - now apply ec_sv_on.
+  - now apply ec_canon_on.
+  - intros k d _ _. apply ec_placeholder_never_verifies.
 Qed.
 End EcC05.
+
+(* ================================================================================================================ *)
+(* D. non-vacuity of the domain conditions: secret 1, digest 1, an hmac whose RFC 6979 nonce is 1 (so R = G): in range,    *)
+(*    and generator.sign returns (C01c_secp256k1_sign_is_rfc6979_unconditional; the nonce and the two residues computed)  *)
+Definition const_hmac (k m : bytes) : bytes := be_encode 32 1.
+
+Lemma const_hmac_nonce : rfc6979_k const_hmac secp256k1_n 1 1 (int_to_octets 32 1) = Some 1.
+Proof. vm_compute. reflexivity. Qed.
+
+Lemma G_residues : secp256k1_Gx mod secp256k1_n <> 0 /\ (1 + (secp256k1_Gx mod secp256k1_n) * 1) mod secp256k1_n <> 0.
+Proof. split; vm_compute; discriminate. Qed.
+
+Lemma domain_inhabited blind fuel :
+  secret_ok [x01] /\ digest_ok [x01] /\ ec_signs blind const_hmac 1 (S fuel) [x01] [x01].
+Proof.
+  split; [split; vm_compute; [discriminate|reflexivity]|]. split; [split; vm_compute; reflexivity|].
+  destruct (Props.C01compose.C01c_secp256k1_sign_is_rfc6979_unconditional blind const_hmac 32) as [EG Hsig].
+  destruct G_residues as [R1 R2].
+  assert (E1 : ecoords (esmul secp256k1_curve 1 (eG (secp256k1_gen blind))) = Some (secp256k1_Gx, secp256k1_Gy)).
+  { rewrite (gl_smul_1 _ _ _ _ _ _ _ (Props.C01compose.C01c_secp256k1_group_laws_unconditional blind)). exact EG. }
+  destruct (Hsig 1%nat 1 1 1 secp256k1_Gx secp256k1_Gy ltac:(split; vm_compute; [discriminate|reflexivity])
+              ltac:(split; vm_compute; reflexivity) const_hmac_nonce E1 R1 R2 fuel) as (s & recid & Es & _).
+  exact (ec_signs_of_ret blind const_hmac 1 (S fuel) [x01] [x01] _ s recid Es).
+Qed.
